@@ -211,7 +211,9 @@ class Pool:
                                 "X": f"child died, wait status {msg}",
                                 "D": "zygote died"}[kind]
                         self.harness_errors.append(text)
-                        if kind == "D":
+                        if kind in ("D", "X"):
+                            # after a child died the job pipe may hold unread bytes of
+                            # its job: never reuse that zygote
                             unreg(z)
                             z.kill()
                             respawns += 1
